@@ -33,6 +33,7 @@ typedef struct {
 	// With warm_mon set, one allocation of the first life fails (warm_fail_at-th; 0 = none).
 	const uint8_t *warm_in; size_t warm_n;
 	alloc_mon *warm_mon; int warm_fail_at;
+	bool warm_exact;         // the first life decodes exactly warm_in, whole, with LZMA_FINISH (no contrast file, no cut)
 } dec_spec;
 
 /// Which decoders make sense for a generated/corpus stream kind.
